@@ -10,10 +10,15 @@
   chain     : every chained comparison  a < b < c  written  a < b and b < c
   commute   : every  a + b  and  a * b  and  a | b  whose operands are side-effect free written  b + a / b * a / b | a
   nestand   : every  if a and b: S  (no else)  written  if a: if b: S
-  earlycont : a loop body that ends with  if c: S  (no else)  ends with  if not c: continue; S  instead"""
+  earlycont : a loop body that ends with  if c: S  (no else)  ends with  if not c: continue; S  instead
+  ifexp     : every statement  t = a if c else b  /  return a if c else b  written as an if / else statement
+  rangestep : every  range(n) / range(a, b)  written  range(0, n, 1) / range(a, b, 1)
+  negcmp    : every two-operand integer comparison in an if / while test  a < b  written  not a >= b  (==  as  not !=, and so on)
+  tempcond  : every  if <comparison or and/or>: ...  (not an elif) written  _cN = <test>; if _cN: ...
+  chainsub  : every read  x[i, j]  whose indices are integer constants, constant names or range-loop variables written  x[i][j]"""
 import ast
 
-MODES = ["roundtrip", "rename", "params", "flipcmp", "augassign", "ifelse", "range0", "tempret", "chain", "commute", "nestand", "earlycont"]
+MODES = ["roundtrip", "rename", "params", "flipcmp", "augassign", "ifelse", "range0", "tempret", "chain", "commute", "nestand", "earlycont", "ifexp", "rangestep", "chainsub", "negcmp", "tempcond"]
 
 class Renamer(ast.NodeTransformer):
     def __init__(self, mode): self.mode = mode
@@ -141,6 +146,94 @@ class EarlyCont(ast.NodeTransformer):
     visit_For = _loop
     visit_While = _loop
 
+class IfExpStmt(ast.NodeTransformer):
+    def visit_Assign(self, n):
+        if isinstance(n.value, ast.IfExp) and len(n.targets) == 1 and isinstance(n.targets[0], (ast.Name, ast.Subscript, ast.Attribute)):
+            t = n.targets[0]
+            t2 = ast.parse(ast.unparse(t)).body[0].value
+            for x in ast.walk(t2):
+                if hasattr(x, "ctx") and x is t2:
+                    x.ctx = ast.Store()
+            t2.ctx = ast.Store()
+            return ast.copy_location(ast.If(test=n.value.test, body=[ast.Assign(targets=[t], value=n.value.body, lineno=n.lineno)],
+                                            orelse=[ast.Assign(targets=[t2], value=n.value.orelse, lineno=n.lineno)]), n)
+        return n
+    def visit_Return(self, n):
+        if isinstance(n.value, ast.IfExp):
+            return ast.copy_location(ast.If(test=n.value.test, body=[ast.Return(value=n.value.body)], orelse=[ast.Return(value=n.value.orelse)]), n)
+        return n
+
+class RangeStep(ast.NodeTransformer):
+    def visit_Call(self, n):
+        self.generic_visit(n)
+        if isinstance(n.func, ast.Name) and n.func.id == "range" and not n.keywords:
+            if len(n.args) == 1:
+                n.args = [ast.Constant(0), n.args[0], ast.Constant(1)]
+            elif len(n.args) == 2:
+                n.args = [n.args[0], n.args[1], ast.Constant(1)]
+        return n
+
+class ChainSub(ast.NodeTransformer):
+    def visit_FunctionDef(self, fn):
+        self.loopvars = {x.target.id for x in ast.walk(fn) if isinstance(x, ast.For) and isinstance(x.target, ast.Name)
+                         and isinstance(x.iter, ast.Call) and isinstance(x.iter.func, ast.Name) and x.iter.func.id == "range"}
+        stored_other = {y.id for x in ast.walk(fn) if isinstance(x, (ast.Assign, ast.AugAssign)) for t in (x.targets if isinstance(x, ast.Assign) else [x.target])
+                        for y in ast.walk(t) if isinstance(y, ast.Name) and isinstance(y.ctx, ast.Store)}
+        self.loopvars -= stored_other
+        self.generic_visit(fn)
+        return fn
+    def visit_Subscript(self, n):
+        self.generic_visit(n)
+        if isinstance(n.ctx, ast.Load) and isinstance(n.value, ast.Name) and isinstance(n.slice, ast.Tuple) and len(n.slice.elts) >= 2 and hasattr(self, "loopvars"):
+            ok = all((isinstance(e, ast.Constant) and type(e.value) is int) or (isinstance(e, ast.Name) and (e.id.isupper() or e.id in self.loopvars)) for e in n.slice.elts)
+            if ok:
+                cur = n.value
+                for e in n.slice.elts:
+                    cur = ast.Subscript(value=cur, slice=e, ctx=ast.Load())
+                return ast.copy_location(cur, n)
+        return n
+
+class NegCmp(ast.NodeTransformer):
+    NG = {ast.Lt: ast.GtE, ast.Gt: ast.LtE, ast.LtE: ast.Gt, ast.GtE: ast.Lt, ast.Eq: ast.NotEq, ast.NotEq: ast.Eq}
+    def _neg(self, t):
+        if isinstance(t, ast.Compare) and len(t.ops) == 1 and type(t.ops[0]) in self.NG and not any(isinstance(x, (ast.NamedExpr, ast.Constant)) and (isinstance(x, ast.NamedExpr) or x.value is None) for x in ast.walk(t)):
+            return ast.UnaryOp(op=ast.Not(), operand=ast.Compare(left=t.left, ops=[self.NG[type(t.ops[0])]()], comparators=t.comparators))
+        return t
+    def visit_If(self, n):
+        self.generic_visit(n)
+        n.test = self._neg(n.test)
+        return n
+    def visit_While(self, n):
+        self.generic_visit(n)
+        n.test = self._neg(n.test)
+        return n
+
+class TempCond(ast.NodeTransformer):
+    def __init__(self): self.k = 0
+    def _block(self, stmts):
+        out = []
+        for st in stmts:
+            st = self.visit(st)
+            if isinstance(st, ast.If) and isinstance(st.test, (ast.Compare, ast.BoolOp)) and not any(isinstance(x, ast.NamedExpr) for x in ast.walk(st.test)):
+                self.k += 1
+                nm = f"_c{self.k}"
+                out.append(ast.copy_location(ast.Assign(targets=[ast.Name(nm, ast.Store())], value=st.test, lineno=st.lineno), st))
+                st.test = ast.Name(nm, ast.Load())
+            out.append(st)
+        return out
+    def generic_visit(self, node):
+        for fld in ("body", "orelse", "finalbody"):
+            v = getattr(node, fld, None)
+            if isinstance(v, list) and v and isinstance(v[0], ast.stmt):
+                # an elif chain (orelse == [If]) is left alone: hoisting its test would evaluate it before the first test
+                if fld == "orelse" and isinstance(node, ast.If) and len(v) == 1 and isinstance(v[0], ast.If):
+                    v[0] = self.visit(v[0])
+                    continue
+                setattr(node, fld, self._block(v))
+        for h in getattr(node, "handlers", []) or []:
+            h.body = self._block(h.body)
+        return node
+
 def transform(src, mode):
     tree = ast.parse(src)
     if mode in ("rename", "params"):
@@ -163,6 +256,16 @@ def transform(src, mode):
         tree = NestAnd().visit(tree)
     elif mode == "earlycont":
         tree = EarlyCont().visit(tree)
+    elif mode == "ifexp":
+        tree = IfExpStmt().visit(tree)
+    elif mode == "rangestep":
+        tree = RangeStep().visit(tree)
+    elif mode == "chainsub":
+        tree = ChainSub().visit(tree)
+    elif mode == "negcmp":
+        tree = NegCmp().visit(tree)
+    elif mode == "tempcond":
+        tree = TempCond().visit(tree)
     ast.fix_missing_locations(tree)
     return ast.unparse(tree) + "\n"
 
